@@ -43,6 +43,7 @@ type Call struct {
 	Tail   []string `json:"tail,omitempty"`
 	Spread bool     `json:"spread,omitempty"`
 	Form   string   `json:"form"`
+	Blanks int      `json:"blanks,omitempty"` // form multi: that many trailing results go to the blank identifier, inside an if block
 }
 
 type Prog struct {
@@ -276,6 +277,9 @@ func genProg(rt *rapid.T) *Prog {
 			forms = append(forms, "methodvalue", "funcvar")
 		}
 		c.Form = rx.Pick(rt, "form", forms...)
+		if c.Form == "multi" && rx.Chance(rt, "blanktail", 1, 2) {
+			c.Blanks = rx.Range(rt, "nblanks", 1, len(f.Results)-1)
+		}
 		if c.Form == "element" {
 			for _, t := range f.Params {
 				if t == "I" { // a bare named type in an unnamed-parameter function type is read as a parameter name by goatlang's parser; not part of this check
@@ -394,6 +398,18 @@ func (p *Prog) Source() string {
 		case "stmt":
 			fmt.Fprintf(&sb, "\t%s(%s)\n", target, al)
 		case "value", "multi":
+			if c.Blanks > 0 && c.Blanks < len(rnames) {
+				// trailing results dropped, in a block of its own: the statement after the block runs
+				keep := len(rnames) - c.Blanks
+				lhs := append(append([]string(nil), rnames[:keep]...), strings.Split(strings.Repeat("_", c.Blanks), "")...)
+				var shown []string
+				for ri := 0; ri < keep; ri++ {
+					shown = append(shown, show(f.Results[ri], rnames[ri])...)
+				}
+				cond := []string{"vb", "!vb", "vi > 5"}[ci%3] // taken, skipped, skipped
+				fmt.Fprintf(&sb, "\tif %s {\n\t\t%s := %s(%s)\n\t\tfmt.Println(%s)\n\t}\n\tvi++\n\tfmt.Println(\"after\", %d, vi)\n", cond, strings.Join(lhs, ", "), target, al, strings.Join(shown, ", "), ci)
+				break
+			}
 			fmt.Fprintf(&sb, "\t%s := %s(%s)\n", strings.Join(rnames, ", "), target, al)
 			printResults()
 		case "argument":
